@@ -192,7 +192,91 @@ func runC16(c *Ctx, r *Report) {
 			}
 		})
 	}
-	r.Floor("C16.R1", 12)
+	// the body of a block comment starts right after the two bytes of its opening delimiter: the first byte
+	// the terminator search looks at is token start + 2
+	{
+		rb := c.SSAFn(c.Fn("lexer", "Lexer.readBlockComment"))
+		rbName := ssaFuncName(rb)
+		readChar, peekChar := c.Fn("lexer", "Lexer.readChar"), c.Fn("lexer", "Lexer.peekChar")
+		delta := map[ssa.Value]int64{} // value -> offset from the position at entry
+		cur, known := int64(0), true
+		firstRead, haveRead := int64(0), false
+		what := ""
+		if len(rb.Blocks) > 0 {
+			for _, in := range rb.Blocks[0].Instrs {
+				if haveRead || !known {
+					break
+				}
+				switch x := in.(type) {
+				case *ssa.UnOp:
+					if li.isFieldLoad(x, "pos") {
+						delta[x] = cur
+					}
+				case *ssa.BinOp:
+					if d, ok := delta[x.X]; ok {
+						if k, isK := constInt(x.Y); isK {
+							switch x.Op {
+							case token.ADD:
+								delta[x] = d + k
+							case token.SUB:
+								delta[x] = d - k
+							}
+						}
+					}
+				case *ssa.Convert:
+					if d, ok := delta[x.X]; ok {
+						delta[x] = d
+					}
+				case *ssa.Store:
+					if fa, ok := x.Addr.(*ssa.FieldAddr); ok && fa.Field == fieldIndex(li.lexT, "pos") {
+						d, ok := delta[x.Val]
+						if !ok {
+							known = false
+							break
+						}
+						cur = d
+					}
+				case *ssa.Slice:
+					if ld, ok := x.X.(*ssa.UnOp); ok && li.isFieldLoad(ld, "input") && x.Low != nil {
+						if d, ok := delta[x.Low]; ok {
+							firstRead, haveRead, what = d, true, "slice of the input from"
+						} else {
+							known = false
+						}
+					}
+				case *ssa.Call:
+					if bi, ok := x.Common().Value.(*ssa.Builtin); ok {
+						if bi.Name() == "min" || bi.Name() == "max" {
+							// clamping to the input length does not move a position that is inside the input
+							for _, a := range x.Common().Args {
+								if d, ok := delta[a]; ok {
+									delta[x] = d
+								}
+							}
+						}
+						break
+					}
+					switch {
+					case isCallTo(x, readChar), isCallTo(x, peekChar):
+						firstRead, haveRead, what = cur, true, "read of the byte at"
+					default:
+						if sc := x.Common().StaticCallee(); sc != nil && isModuleSSA(sc) {
+							known = false // another lexer method may move the position
+						}
+					}
+				}
+			}
+		}
+		switch {
+		case !known || !haveRead:
+			r.Abstain("C16.R1", rbName, "the terminator search starts right after the opening delimiter", c.Pos(rb.Pos()), "the first read of the comment body could not be located by following the position through the entry block")
+		default:
+			// the token starts one byte before the position at entry (the '/' already consumed): start = -1
+			r.Check(firstRead == 1, "C16.R1", rbName, "the terminator search starts right after the opening delimiter", c.Pos(rb.Pos()),
+				fmt.Sprintf("the first %s position entry%+d, i.e. token start + %d: the opening delimiter is 2 bytes long, so the body must be scanned from token start + 2 (starting later misses a terminator at the very beginning, as in /**/; starting earlier would take the `*` of the opening for one)", what, firstRead, firstRead+1))
+		}
+	}
+	r.Floor("C16.R1", 13)
 
 	// ---- R2 ----
 	ctc := c.Fn("token", "ConstantTokenChar")
